@@ -169,7 +169,7 @@ def run_impl(case):
         if kind == "rate": deco = cache.rate_limit(limit=case["limit"], period=period, ttl=ttl or None, action=action, **kw)
         elif kind == "slide": deco = cache.slice_rate_limit(limit=case["limit"], period=period, action=action, **kw)
         else: deco = cache.circuit_breaker(errors_rate=case["rate"], period=period, ttl=ttl, min_calls=case["min_calls"],
-                                           exceptions=(KeyError, ExcA) if case.get("exc_tuple") else ExcA, **kw)
+                                           exceptions=(KeyError, ExcA, asyncio.CancelledError) if case.get("exc_tuple") else ExcA, **kw)      # a listed class may be a BaseException (calls cut off by a timeout counted as failures)
 
         @deco
         async def f(host="h1"):
@@ -180,7 +180,7 @@ def run_impl(case):
             if _fdur(case, st["i"]):
                 await asyncio.sleep(_fdur(case, st["i"]) * TICK)      # a slow call: the failure is stamped when it fails, not when the call began
             if kind == "breaker":
-                if s == "A": raise ExcA()
+                if s == "A": raise (asyncio.CancelledError() if case.get("exc_tuple") and st["i"] % 4 == 3 else ExcA())
                 if s == "B": raise ExcB()
             return "done"
         steps = []
@@ -200,6 +200,7 @@ def run_impl(case):
             except RateLimitError: out = "rejected"
             except CircuitBreakerOpen: out = "open"
             except ExcA: out = "A"
+            except asyncio.CancelledError: out = "A" if case.get("exc_tuple") and kind == "breaker" else "anomaly:CancelledError"
             except ExcB: out = "B"
             except Exception as e:  # noqa
                 out = "anomaly:" + type(e).__name__
